@@ -89,7 +89,19 @@ def gen_C01(tier, rnd):
     ntree = 10000 if tier == 'quick' else 100000
     for _ in range(ntree):
         lines.append('P ' + hx(' '.join(spell_tree(rand_tree(rnd, rnd.randint(1, 8)), rnd, 0))))
-    return lines, {'rule': 'all word sequences over %d symbols up to length %d (exhaustive), %d random sequences of length 7-40, %d random well-formed trees (depth<=8) spelled with random AND/OR synonyms and redundant parentheses; non-trivial = at least two words'
+    # long sentences: many operands at one level, many closed groups, deep nesting (the grammar has no length bound)
+    nlong = 0
+    for k in [2, 10, 63, 64, 65, 66, 100, 129, 200, 257, 500]:
+        for item in ['! -true', '-false', '! ! -name x', '( -true )', '( ! -true )', '( -true -o -false )']:
+            for sep in [' ', ' -a ', ' -and ', ' -o ', ' -or ', ' , ']:
+                lines.append('P ' + hx(sep.join([item] * k))); nlong += 1
+        if k <= 300:
+            lines.append('P ' + hx('( ' * k + '-true' + ' )' * k)); nlong += 1
+            lines.append('P ' + hx('! ' * k + '-true')); nlong += 1
+            lines.append('P ' + hx('( ! ' * k + '-name x' + ' )' * k)); nlong += 1
+            lines.append('P ' + hx('-true' + ' -o ( -false' * k + ' )' * k)); nlong += 1
+            lines.append('P ' + hx('( ' * k + '-true' + ' )' * (k - 1))); nlong += 1
+    return lines, {'rule': 'long sentences (2..500 operands at one level with every operator spelling, closed groups, nesting ladders to depth 257), all word sequences over %d symbols up to length %d (exhaustive), %d random sequences of length 7-40, %d random well-formed trees (depth<=8) spelled with random AND/OR synonyms and redundant parentheses; non-trivial = at least two words'
                    % (len(C01_WORDS), maxlen, nrand, ntree), 'exhaustive': False,
                    'streams': {'exhaustive_len<=%d' % maxlen: sum(len(C01_WORDS) ** n for n in range(maxlen + 1)), 'random_seq': nrand, 'random_trees': ntree}}
 
@@ -293,7 +305,12 @@ def gen_C17(tier, rnd):
     a, ia = gp.gen_totality(tier, rnd)
     b, ib = gp.gen_vocab(tier, rnd)
     b = ['C ' + l.split(' ', 1)[1].split(' #')[0] + ' ' + hx('/dev/x') for l in b]
-    return a + b, {'rule': 'the C03 (totality) and C05 (vocabulary) corpora through a debug and a release build of the harness, observations compared request by request; ' + ia['rule'], 'streams': {'totality': len(a), 'vocab': len(b)}}
+    # sizes beyond the corpora: long and deeply nested (but far from the stack limit of either build) expressions
+    for k in [65, 66, 100, 128, 200, 255, 256, 257, 300]:
+        for t in ['( ' * k + '-name x -o -uid 0' + ' )' * k, '! ' * k + '-true', ' -o '.join(['( ! -true )'] * k), ' '.join(['! -name x%d' % i for i in range(k)]),
+                  '( ! ' * k + '-name x' + ' )' * k]:
+            b.append('C %s %s' % (hx(t), hx('/dev/x')))
+    return a + b, {'rule': 'long and deeply nested expressions (65..300 levels / operands); the C03 (totality) and C05 (vocabulary) corpora through a debug and a release build of the harness, observations compared request by request; ' + ia['rule'], 'streams': {'totality': len(a), 'vocab': len(b)}}
 
 
 GENERATORS['C17'] = gen_C17
